@@ -58,6 +58,10 @@ def _worker(prop, modname, cid):
 
 def _child(conn, prop, modname, cid):
     try:
+        import ctypes, signal
+        ctypes.CDLL("libc.so.6").prctl(1, signal.SIGKILL)          # PR_SET_PDEATHSIG: never outlive the runner
+    except Exception: pass
+    try:
         out = _worker(prop, modname, cid)
         try: conn.send(out)
         except Exception as e:      # unpicklable detail in a result: keep the verdicts, drop the detail
